@@ -68,6 +68,9 @@ func (p *ParserPlanner) Process(ctx *shared.PlannerContext,
 			}
 			labels, err := parser(entry.Message, &labels)
 			if err != nil {
+				// same identity rule as for the lines that parse: the fingerprint of the
+				// label set, not the one stored in ClickHouse (another hash function)
+				entry.Fingerprint = fingerprint(entry.Labels)
 				return nil
 			}
 			entry.Labels = labels
